@@ -29,7 +29,7 @@ CHECK_DEADLOCK FALSE
 '''
 CONFIGS = [{'sql': 'default', 'dbml': 'default'}, {'sql': 'custom', 'dbml': 'default'}, {'sql': 'default', 'dbml': 'custom'},
            {'sql': 'custom', 'dbml': 'custom'}]
-ROUTES = ['built', 'ctor', 'parse', 'ctor_path', 'ctor_file', 'instance']       # every way the renderer classes can be handed over
+ROUTES = ['built', 'ctor', 'parse', 'ctor_path', 'ctor_file', 'instance', 'morphed']       # every way the renderer classes can be handed over
 
 _CLASSES = None
 
@@ -87,7 +87,7 @@ def classes():
     return _CLASSES
 
 
-def _exec_chunk(items):
+def _exec_items(items):
     from pydbml import PyDBML
     from pydbml.renderer.sql.default import DefaultSQLRenderer
     from pydbml.renderer.dbml.default import DefaultDBMLRenderer
@@ -99,7 +99,10 @@ def _exec_chunk(items):
         inherit = it['tid'] % 3 == 2
         kw = {'sql_renderer': TagSQL if cfg['sql'] == 'custom' else DefaultSQLRenderer,
               'dbml_renderer': TagDBML if cfg['dbml'] == 'custom' else DefaultDBMLRenderer}
-        if it['route'] == 'built':
+        if it['route'] == 'morphed':
+            # built from another content, rendered, edited in place into this content (pv/builder.py)
+            db = builder.build_morphed(it['model'], ('refs', 'names', 'settings', 'types')[it['tid'] % 4:][:1] + ('refs',), **kw)
+        elif it['route'] == 'built':
             db = builder.build(it['model'], **kw)
         elif it['route'] == 'ctor':
             db = PyDBML(print_doc(it['doc'], None, {}), **kw)
@@ -248,13 +251,37 @@ def _exec_chunk(items):
     return out
 
 
+def _exec_chunk(items):
+    """One item at a time; an exception that escapes from an operation the specification enables at any time (building, parsing,
+    rendering the database for the containment count, reading the model back) is an observation, not a harness failure."""
+    out = []
+    for it in items:
+        try:
+            out += _exec_items([it])
+        except Exception as ex:
+            import traceback
+            fr = [f for f in traceback.extract_tb(ex.__traceback__) if '/pydbml/' in f.filename]
+            where = '%s:%s' % (fr[-1].filename.split('/pydbml/')[-1], fr[-1].name) if fr else 'harness'
+            if not fr:
+                raise
+            out.append({'tid': it['tid'], 'crash': '%s (%s) at %s' % (type(ex).__name__, str(ex)[:120], where), 'obs': [], 'counts': []})
+    return out
+
+
 def run_items(items, rep, label):
     recs: List[Dict[str, Any]] = []
     for part in core.pmap(_exec_chunk, core.chunked(items, core.NCPU * 4)):
         recs += part
-    verdicts, st = core.validate('TraceRenderers', 'TraceRenderers.cfg', recs)
-    rep.add_val_stats('TraceRenderers ' + label, st)
-    return {r['tid']: (verdicts[r['tid']], r) for r in recs}
+    crashed = [r for r in recs if 'crash' in r]
+    recs = [r for r in recs if 'crash' not in r]
+    verdicts, st = core.validate('TraceRenderers', 'TraceRenderers.cfg', recs) if recs else ({}, {})
+    if recs:
+        rep.add_val_stats('TraceRenderers ' + label, st)
+    res = {r['tid']: (verdicts[r['tid']], r) for r in recs}
+    for r in crashed:
+        # Renderers.tla: Build/Render/Project are total on well-formed models; no behaviour of the specification has this step failing
+        res[r['tid']] = ('escaped: building, rendering or reading back a well-formed database raised ' + r['crash'], r)
+    return res
 
 
 def main(argv: List[str]) -> int:
